@@ -80,29 +80,70 @@ fn main() {
     let wseed: u64 = a.get(1).and_then(|s| s.parse().ok()).unwrap_or(1);
     let w: usize = a.get(2).and_then(|s| s.parse().ok()).unwrap_or(2);
     let mut r = Rng(wseed);
-    // small diagram: 3..6 spiders, up to 5 T
-    let n = 3 + r.below(4) as usize;
+    // small diagram, 3..7 spiders, up to 5 T. Two shapes: one Erdős–Rényi blob, or (more often)
+    // a disjoint union of tiny components with repetitions and possibly a zero-valued one (a
+    // lone pi spider) — sharing, de-duplicating or short-circuiting work between components is
+    // where a parallel decomposer is tempted to be clever.
     let mut g = Graph::new();
     let mut t = 0;
-    for _ in 0..n {
-        let k = if t < 5 && r.below(3) != 0 {
-            t += 1;
-            [1, 3, 5, 7][r.below(4) as usize]
-        } else {
-            [0, 2, 4, 6][r.below(4) as usize]
-        };
-        g.add_vertex_with_phase(VType::Z, Rational64::new(k, 4));
-    }
-    for i in 0..n {
-        for j in (i + 1)..n {
-            if r.below(100) < 45 {
-                g.add_edge_with_type(i, j, EType::H);
+    let mut n = 0usize;
+    if r.below(3) == 0 {
+        n = 3 + r.below(4) as usize;
+        for _ in 0..n {
+            let k = if t < 5 && r.below(3) != 0 {
+                t += 1;
+                [1, 3, 5, 7][r.below(4) as usize]
+            } else {
+                [0, 2, 4, 6][r.below(4) as usize]
+            };
+            g.add_vertex_with_phase(VType::Z, Rational64::new(k, 4));
+        }
+        for i in 0..n {
+            for j in (i + 1)..n {
+                if r.below(100) < 45 {
+                    g.add_edge_with_type(i, j, EType::H);
+                }
             }
         }
+    } else {
+        let kinds = 1 + r.below(2);
+        for _ in 0..kinds {
+            // a component: a path of 1..3 spiders with chosen phases
+            let len = 1 + r.below(3) as usize;
+            let phases: Vec<i64> = (0..len)
+                .map(|_| if r.below(3) != 0 { [1, 3, 5, 7][r.below(4) as usize] } else { [0, 2, 4, 6][r.below(4) as usize] })
+                .collect();
+            let copies = 1 + r.below(2) as usize;
+            for _ in 0..copies {
+                let tc = phases.iter().filter(|p| *p % 2 == 1).count();
+                if n + len > 7 || t + tc > 5 {
+                    break;
+                }
+                let base = n;
+                for &p in &phases {
+                    g.add_vertex_with_phase(VType::Z, Rational64::new(p, 4));
+                }
+                for i in 1..len {
+                    g.add_edge_with_type(base + i - 1, base + i, EType::H);
+                }
+                n += len;
+                t += tc;
+            }
+        }
+        if r.below(3) == 0 && n < 7 {
+            // a zero-valued component
+            g.add_vertex_with_phase(VType::Z, Rational64::new(4, 4));
+            n += 1;
+        }
+        if n == 0 {
+            g.add_vertex_with_phase(VType::Z, Rational64::new(1, 4));
+            n = 1;
+            t = 1;
+        }
     }
-    let simp = if r.below(2) == 0 { SimpFunc::NoSimp } else { SimpFunc::FullSimp };
-    let split = r.below(2) == 0;
-    let drv = r.below(5);
+    let simp = if r.below(3) != 0 { SimpFunc::NoSimp } else { SimpFunc::FullSimp };
+    let split = r.below(4) != 0;
+    let drv = [0u64, 1, 2, 3, 3, 4][r.below(6) as usize];
     let want = brute(&g);
     let (seq, par) = match drv {
         0 => run(&g, &BssTOnlyDriver { random_t: true }, simp, split, w),
